@@ -599,6 +599,50 @@ Proof.
     unfold ds_keys. cbn [dvars]. apply NoDup_map_filter. apply put_var_keys. exact Hkeys.
 Qed.
 
+(* ------------------------------------------------------------------ renaming one key: no side condition *)
+Lemma find_filter_other (vars : list dvar) o n : o <> n ->
+  find (fun v => String.eqb (vkey v) o) (filter (fun v => negb (String.eqb (vkey v) n)) vars) = find (fun v => String.eqb (vkey v) o) vars.
+Proof.
+  intros Hne. induction vars as [|x t IH]; simpl; [reflexivity|].
+  destruct (String.eqb_spec (vkey x) n) as [En|Nn]; simpl.
+  - destruct (String.eqb_spec (vkey x) o) as [Eo|No]; [exfalso; apply Hne; congruence | exact IH].
+  - destruct (String.eqb (vkey x) o); [reflexivity | exact IH].
+Qed.
+Lemma find_filter_self (vars : list dvar) n :
+  find (fun v => String.eqb (vkey v) n) (filter (fun v => negb (String.eqb (vkey v) n)) vars) = None.
+Proof.
+  induction vars as [|x t IH]; simpl; [reflexivity|].
+  destruct (String.eqb (vkey x) n) eqn:E; simpl; [exact IH | rewrite E; exact IH].
+Qed.
+Lemma delitem_find_other n s o : o <> n -> find_var (fst (ds_delitem n s)) o = find_var s o.
+Proof.
+  intros Hne. unfold ds_delitem. destruct (find_var s n); [|reflexivity]. unfold find_var. simpl. apply find_filter_other. exact Hne.
+Qed.
+Lemma delitem_find_self n s w : find_var s n = Some w -> find_var (fst (ds_delitem n s)) n = None.
+Proof. intros H. unfold ds_delitem. rewrite H. unfold find_var. simpl. apply find_filter_self. Qed.
+Lemma find_var_none_notin s n : find_var s n = None -> ~ In n (ds_keys s).
+Proof.
+  unfold find_var, ds_keys. intros H Hin. apply in_map_iff in Hin. destruct Hin as [w [E Hw]].
+  pose proof (find_none _ _ H w Hw) as Hf. cbv beta in Hf. rewrite E, String.eqb_refl in Hf. discriminate.
+Qed.
+
+Theorem rename_key_inv_total o n s : Inv4 s -> Inv4 (fst (ds_rename_key o n s)).
+Proof.
+  intros Hi.
+  destruct (find_var s o) as [v|] eqn:Ef; [|unfold ds_rename_key; rewrite Ef; exact Hi].
+  destruct (String.eqb_spec o n) as [E|NE]; [apply rename_key_inv; [exact Hi | left; symmetry; exact E]|].
+  destruct (find_var s n) as [w|] eqn:En.
+  - (* the new key is taken: the result is the renaming, in the dataset without that variable, to a key that is now free *)
+    set (s1 := fst (ds_delitem n s)).
+    assert (Hi1 : Inv4 s1) by (apply delitem_inv; exact Hi).
+    assert (Ef1 : find_var s1 o = Some v) by (unfold s1; rewrite delitem_find_other by exact NE; exact Ef).
+    assert (En1 : find_var s1 n = None) by (unfold s1; eapply delitem_find_self; exact En).
+    assert (Heq : fst (ds_rename_key o n s) = fst (ds_rename_key o n s1)).
+    { unfold ds_rename_key. rewrite Ef, Ef1, En, En1. destruct (String.eqb_spec o n); [contradiction | reflexivity]. }
+    rewrite Heq. apply rename_key_inv; [exact Hi1 | right; apply find_var_none_notin; exact En1].
+  - apply rename_key_inv; [exact Hi | right; apply find_var_none_notin; exact En].
+Qed.
+
 (* ------------------------------------------------------------------ rename_keys with several keys at once *)
 Lemma put_var_fresh vars v : ~ In (vkey v) (map vkey vars) -> put_var vars v = vars ++ [v].
 Proof.
@@ -701,14 +745,13 @@ Proof. unfold ds_init. destruct (align _ _ _ _ _); [apply init_fold_inv; apply i
 (* what a history must respect for the bookkeeping invariant: new names are fresh *)
 Definition op_ok (s : dset) (o : dsop) : Prop :=
   match o with
-  | DSet _ _ | DDel _ | DSetLabel _ _ _ _ | DSetDims _ | DRenameAxes _ => True
+  | DSet _ _ | DDel _ | DSetLabel _ _ _ _ | DSetDims _ | DRenameAxes _ | DRenameKey _ _ => True
   | DRenameAxis r n => forall id, ds_axis_ref s r = Ok id -> ~ In n (ds_dims s) \/ n = aname (hget (heap s) id)
   | DReplaceAxis r nx => (forall id, ds_axis_ref s r = Ok id -> aname nx = aname (hget (heap s) id) \/ ~ In (aname nx) (ds_dims s))
                          /\ (forall id, ds_axis_ref s r = Ok id -> In id (dsax s))
   | DVarRenameAxis k r n => forall v i, find_var s k = Some v -> axis_info (var_as_darr s v) r = Ok i ->
                                        ~ In n (ds_dims s) \/ n = aname (hget (heap s) (nth i (vax v) 0))
   | DSetAxis r _ _ name => forall id n, ds_axis_ref s r = Ok id -> name = Some n -> ~ In n (ds_dims s) \/ n = aname (hget (heap s) id)
-  | DRenameKey o n => n = o \/ ~ In n (ds_keys s)
   | DRenameKeys m => renkeys_ok s m
   | DInit _ => True
   end.
@@ -727,7 +770,7 @@ Proof.
   - apply set_label_inv; exact Hi.
   - apply set_axis_inv; assumption.
   - apply replace_axis_inv; [exact Hi | apply Hok | apply Hok].
-  - apply rename_key_inv; assumption.
+  - apply rename_key_inv_total; exact Hi.
   - apply rename_keys_inv; assumption.
   - apply init_inv.
 Qed.
